@@ -112,6 +112,16 @@ class IdleReleaseExternalRunAdapter(BaseExternalRunAdapterDecorator):
                 )
             await self._decorated.send_event(tick)
 
+    @override
+    async def cancel(self) -> None:
+        # The inherited cancel() goes straight to the inner adapter. A released run
+        # has no live inner run that could receive the cancellation (the handler
+        # would stay "running" for ever), so bring it back first.
+        async with self._runtime._reload_lock(self.run_id):
+            if self.run_id not in self._runtime._active_run_ids:
+                await self._runtime._ensure_active_run_locked(self.run_id)
+        await self._decorated.cancel()
+
 
 class IdleReleaseDecorator(BaseRuntimeDecorator):
     """Runtime decorator for idle detection, memory release, and reload-on-demand.
